@@ -116,6 +116,10 @@ def _make_data(cfg):
         for m, U in enumerate(Us):
             out = np.moveaxis(np.tensordot(U, out, axes=(1, m)), 0, m)
         return out + 1e-9 * _rng(cfg["seed"] + 77).standard_normal(shape)
+    if kind == "tr_exact":           # a tensor that IS a ring of the requested ranks: the fit becomes exact
+        rk = cfg["rank"]
+        cores = [rng.standard_normal((rk[k], shape[k], rk[k + 1])) for k in range(len(shape))]
+        return tr_dense(cores)
     if kind == "counts":           # non-negative counts (used with data_dtype="int64": an integer array)
         return rng.randint(0, 6, size=shape).astype(float)
     if kind == "complex":
@@ -1199,6 +1203,10 @@ def driver_configs(tier, seed, algs=None):
     add("tucker", shape=[30, 40, 50], rank=[6, 6, 6], data="generic", init="random", tol="zero", svd="randomized_svd", caps=[1, 2, 50, 51, 105, 106, 107])
     #  (e) a LARGE problem (rank x product of the other modes above 2^20): blocked / chunked code paths
     add("parafac", shape=[20, 250, 250], rank=20, data="noisy_lowrank", init="random", tol="zero", normalize=True, caps=[1, 2, 3])
+    # ---- tensor-ring ALS through the normal equations on (near-)exact fits: the reported value is the residual of the iterate
+    for j in range(4):
+        add("tr_als", shape=[[4, 3, 4], [3, 4, 3]][j % 2], rank=[[1, 1, 1, 1], [1, 2, 1, 1], [2, 1, 1, 2], [2, 2, 2, 2]][j], data="tr_exact", init="random", tol="zero",
+            callback=True, ls_solve="normal_eq", caps=[0, 1, 2, 3, 5, 8, 13, 21])
     # ---- legal inputs of unusual structure
     for data, shp in (("symmetric", [4, 4, 4]), ("constant", [4, 5, 3]), ("dominant", [4, 5, 3]), ("orthogonal", [4, 5, 3]), ("banded", [4, 5, 3])):
         nonneg = data in ("constant", "dominant", "banded")
